@@ -646,7 +646,7 @@ def evaluate__format_number(self: XPathFunction, context: ta.ContextType = None)
         # Check optional exponent spec correctness in each sub-picture
         exponent_separator = decimal_format['exponent-separator']
         _pattern = re.compile(r'(?<=[{0}]){1}[{0}]'.format(
-            re.escape(active_characters), exponent_separator
+            re.escape(active_characters), re.escape(exponent_separator)
         ))
         for p in sub_pictures:
             for match in _pattern.finditer(p):
@@ -1286,8 +1286,8 @@ def evaluate__unparsed_text(self: XPathFunction, context: ta.ContextType = None)
         raise self.error('FOUT1170') from None
 
     try:
-        codecs.lookup(encoding)
-    except LookupError:
+        ''.encode(encoding)  # a LookupError also for codecs that are not text encodings
+    except (LookupError, UnicodeError):
         raise self.error('FOUT1190') from None
 
     if context is not None and uri in context.text_resources:
@@ -1358,8 +1358,8 @@ def evaluate__unparsed_text_available(self: XPathFunction, context: ta.ContextTy
         return False
 
     try:
-        codecs.lookup(encoding)
-    except LookupError:
+        ''.encode(encoding)  # a LookupError also for codecs that are not text encodings
+    except (LookupError, UnicodeError):
         return False
 
     try:
